@@ -182,11 +182,13 @@ def rootOKT (r : Option String) : Bool := match r with | some n => nameOK n | no
     spaces / tabs and descriptions are printed; every name is a `Name` lexeme (enum values not `true`/`false`/`null`,
     directive locations from the table); type expressions have no `!!`; printed default values exist and consist of
     number / name lexemes; object, interface, enum, input and union types have at least one member; every description
-    survives the printer's layout at its depth (`descTextOK`). -/
+    survives the printer's layout at its depth (`descTextOK`); the text is not empty and a printed `schema` block names at
+    least one root. -/
 def printTextWF (o : SdlPrintT.OptsT) (s : SchemaD) : Bool :=
   o.descriptions && o.indent.all (fun c => c == 32 || c == 9) &&
   s.types.all (typeOKT s o.indent.length) && s.directives.all (directiveOKT s o.indent.length) &&
   rootOKT s.query && rootOKT s.mutation && rootOKT s.subscription &&
-  (!s.types.isEmpty || !s.directives.isEmpty || SdlPrint.needsSchemaBlock s)
+  (!s.types.isEmpty || !s.directives.isEmpty || SdlPrint.needsSchemaBlock s) &&
+  (!SdlPrint.needsSchemaBlock s || !(SdlPrint.rootOps s).isEmpty)
 
 end PyGql.SdlText
